@@ -120,7 +120,11 @@ func init() {
 			if len(crafted) < 100 {
 				panic("harness: tkn20 ciphertext layout not recognised")
 			}
-			reg("ABE", entry{name: "tkn20.Decrypt(crafted-policy)", seeds: [][]byte{ct5}, extra: crafted, max: 2500, f: func(b []byte) {
+			reenc := reencodePolicies(ct5)
+			if len(reenc) < 20 {
+				panic("harness: tkn20 policy layout not recognised")
+			}
+			reg("ABE", entry{name: "tkn20.Decrypt(crafted-policy)", seeds: [][]byte{ct5}, extra: crafted, must: reenc, max: 2500, f: func(b []byte) {
 				_, _ = ak5.Decrypt(b)
 				_ = attrs5.CouldDecrypt(b)
 				var p tkn20.Policy
@@ -584,6 +588,105 @@ func craftPolicies(ct []byte) [][]byte {
 		c := lib.Clone(ct)
 		put16(c, o+2, v)
 		out = append(out, c)
+	}
+	return out
+}
+
+// reencodePolicies rebuilds the policy with a different number of inputs and
+// / or gates and rewrites every enclosing length prefix (policy: 16 bit at
+// o-2, C1: 32 bit at o-6, MAC data: 32 bit at o-10), so that the altered
+// policy is what the parser actually sees: spare inputs the formula does not
+// use, missing inputs, duplicated and dropped gates.
+func reencodePolicies(ct []byte) [][]byte {
+	const tag = 6
+	if len(ct) < tag+2 {
+		return nil
+	}
+	o := tag + 2 + (int(ct[tag]) | int(ct[tag+1])<<8) + 4 + 4 + 2 // start of the policy
+	if len(ct) < o+4 {
+		return nil
+	}
+	n := int(ct[o+2]) | int(ct[o+3])<<8
+	get16 := func(b []byte, at int) int { return int(b[at]) | int(b[at+1])<<8 }
+	get32 := func(b []byte, at int) int {
+		return int(b[at]) | int(b[at+1])<<8 | int(b[at+2])<<16 | int(b[at+3])<<24
+	}
+	pLen := get16(ct, o-2)
+	if len(ct) < o+pLen || pLen < 4+7*n+2 {
+		return nil
+	}
+	pol := ct[o : o+pLen]
+	gates := pol[4 : 4+7*n]
+	w := pol[4+7*n:]
+	nW := get16(w, 0)
+	w = w[2:]
+	var wires [][]byte
+	for i := 0; i < nW; i++ {
+		if len(w) < 2 || len(w) < 2+get16(w, 0) {
+			return nil
+		}
+		l := get16(w, 0)
+		wires = append(wires, w[2:2+l])
+		w = w[2+l:]
+	}
+	if len(wires) == 0 {
+		return nil
+	}
+	build := func(gs []byte, ws [][]byte) []byte {
+		ng := len(gs) / 7
+		np := []byte{byte(2 + len(gs)), byte((2 + len(gs)) >> 8), byte(ng), byte(ng >> 8)}
+		np = append(np, gs...)
+		np = append(np, byte(len(ws)), byte(len(ws)>>8))
+		for _, x := range ws {
+			np = append(np, byte(len(x)), byte(len(x)>>8))
+			np = append(np, x...)
+		}
+		if len(np) > 0xFFFF {
+			return nil
+		}
+		delta := len(np) - pLen
+		c := append(lib.Clone(ct[:o]), np...)
+		c = append(c, ct[o+pLen:]...)
+		c[o-2], c[o-1] = byte(len(np)), byte(len(np)>>8)
+		for _, at := range []int{o - 6, o - 10} {
+			v := get32(ct, at) + delta
+			c[at], c[at+1], c[at+2], c[at+3] = byte(v), byte(v>>8), byte(v>>16), byte(v>>24)
+		}
+		return c
+	}
+	// self-check of the layout: rebuilding the unchanged policy must give
+	// the ciphertext back
+	if !lib.Eq(build(gates, wires), ct) {
+		return nil
+	}
+	var out [][]byte
+	add := func(c []byte) {
+		if c != nil {
+			out = append(out, c)
+		}
+	}
+	for _, extra := range []int{1, 2, 3, n, n + 1, n + 2, n + 3, 2*n + 1, 2*n + 2, 2*n + 3, 3*n + 4, 64, 300} {
+		for _, which := range []int{0, len(wires) - 1} {
+			ws := append([][]byte{}, wires...)
+			for k := 0; k < extra; k++ {
+				ws = append(ws, wires[which])
+			}
+			add(build(gates, ws))
+		}
+	}
+	for drop := 1; drop <= len(wires); drop++ {
+		add(build(gates, wires[:len(wires)-drop]))
+	}
+	// one gate more (a copy of the last) / one gate fewer, inputs unchanged
+	// and adjusted
+	if n >= 1 {
+		g2 := append(lib.Clone(gates), gates[7*(n-1):]...)
+		add(build(g2, wires))
+		add(build(g2, append(append([][]byte{}, wires...), wires[0])))
+		add(build(gates[:7*(n-1)], wires))
+		if len(wires) > 1 {
+			add(build(gates[:7*(n-1)], wires[:len(wires)-1]))
+		}
 	}
 	return out
 }
